@@ -533,6 +533,17 @@ def isolation(ctx, match, mpaths):
                      for e in iter_events(p.trace)
                      if e[0] in ('setsub', 'delsub') and contains(
                          e[1], lambda x: x == ('param', 'self'))})
+    # (an attribute no test of match() reads - a hit counter - cannot change
+    # what a later signal matches)
+    def _tested(w):
+        at = ('attr', ('param', 'self'), w)
+        return any(contains(c, lambda x: x == at)
+                   for p in mpaths for c, _ in p.cond) or any(
+            hasattr_c[3][1:] == (C(w),) for p in mpaths
+            for hasattr_c, _ in p.cond
+            if kind(hasattr_c) == 'call' and hasattr_c[1] in (
+                'hasattr', 'getattr') and len(hasattr_c[3]) >= 2)
+    writes = [w for w in writes if '.' in w or '[' in w or _tested(w)]
     ctx.ob('C12.D5', match.qualname, 'match-does-not-modify-the-rule',
            not writes, 'Rule.match writes %s: whether a later signal '
            'matches then depends on which signals were examined before '
